@@ -42,6 +42,18 @@ pub(crate) struct AmendedRequest<Body> {
     unset: ArrayVec<HeaderName, 3>,
 }
 
+#[cfg(hoot_verif)]
+impl<Body: Clone> Clone for AmendedRequest<Body> {
+    fn clone(&self) -> Self {
+        AmendedRequest {
+            request: self.request.clone(),
+            uri: self.uri.clone(),
+            headers: self.headers.clone(),
+            unset: self.unset.clone(),
+        }
+    }
+}
+
 impl<Body> AmendedRequest<Body> {
     pub fn new(request: Request<Body>) -> Self {
         let (parts, body) = request.into_parts();
@@ -258,4 +270,29 @@ pub(crate) struct RequestInfo {
     pub body_mode: BodyWriter,
     pub req_host_header: bool,
     pub req_body_header: bool,
+}
+
+
+#[cfg(hoot_verif)]
+impl<Body> AmendedRequest<Body> {
+    pub(crate) fn verif_fingerprint(&self) -> String {
+        format!(
+            "{} {:?} {:?} uri_override={:?} orig={:?} added={:?} unset={:?} body={}",
+            self.request.method(),
+            self.request.uri(),
+            self.request.version(),
+            self.uri,
+            self.request
+                .headers()
+                .iter()
+                .map(|(k, v)| (k.as_str(), v.as_bytes()))
+                .collect::<Vec<_>>(),
+            self.headers
+                .iter()
+                .map(|(k, v)| (k.as_str(), v.as_bytes()))
+                .collect::<Vec<_>>(),
+            self.unset.iter().map(|k| k.as_str()).collect::<Vec<_>>(),
+            self.request.body().is_some(),
+        )
+    }
 }
